@@ -1,0 +1,38 @@
+//go:build verif
+
+package ocsp
+
+import "github.com/zmap/zcrypto/encoding/asn1"
+
+// VerifHashOID is one entry of hashOIDs.
+type VerifHashOID struct {
+	Hash int
+	OID  asn1.ObjectIdentifier
+}
+
+// VerifSigAlg is one entry of signatureAlgorithmDetails, in table order.
+type VerifSigAlg struct {
+	Algo, PubKeyAlgo, Hash int
+	OID                    asn1.ObjectIdentifier
+}
+
+// VerifHashOIDs returns the contents of hashOIDs (unordered).
+func VerifHashOIDs() []VerifHashOID {
+	var out []VerifHashOID
+	for h, oid := range hashOIDs {
+		out = append(out, VerifHashOID{Hash: int(h), OID: oid})
+	}
+	return out
+}
+
+// VerifSigAlgs returns signatureAlgorithmDetails in table order.
+func VerifSigAlgs() []VerifSigAlg {
+	var out []VerifSigAlg
+	for _, d := range signatureAlgorithmDetails {
+		out = append(out, VerifSigAlg{Algo: int(d.algo), PubKeyAlgo: int(d.pubKeyAlgo), Hash: int(d.hash), OID: d.oid})
+	}
+	return out
+}
+
+// VerifBasicOID returns idPKIXOCSPBasic.
+func VerifBasicOID() asn1.ObjectIdentifier { return idPKIXOCSPBasic }
